@@ -13,7 +13,7 @@ for f in files:
         if m:
             rows.setdefault(m.group(1), {})[m.group(2)] = (int(m.group(3)), int(m.group(4)), m.group(5))   # later files win
 out_lines = []
-for d in sorted(glob.glob('/verif/seeded/C*-m*/')):
+for d in sorted(glob.glob('/verif/seeded/C??-*m?/')):
     name = os.path.basename(d.rstrip('/'))
     pid = name.split('-')[0]
     notes = open(d + 'notes.md').read() if os.path.exists(d + 'notes.md') else ''
